@@ -181,8 +181,11 @@ def row_stream(it, name, may_raise=False):
     return Stream(name, mk, may_raise=may_raise)
 
 
-def ufunc(name, result_sort=Cell, pure=True):
-    """uninterpreted callable; arguments are flattened to z3 terms (rows become dom,val)"""
+def ufunc(name, result_sort=Cell, pure=True, mutates_row=None, params=None):
+    """uninterpreted callable; arguments are flattened to z3 terms (rows become dom,val).
+    pure=False: each call is a Call event.  mutates_row=k: the k-th argument (a Row) is replaced by a deterministic
+    but unknown function of all arguments (a callback that may edit the row it is given).
+    params: parameter names reported by inspect.signature."""
     def apply(it, args, kwargs):
         ts = []
         for a in list(args) + [kwargs[k] for k in sorted(kwargs)]:
@@ -203,11 +206,18 @@ def ufunc(name, result_sort=Cell, pure=True):
         r = f(*ts) if ts else z3.Const(name, result_sort)
         if not pure:
             it.emit(Ev('Call', target=name, method='__call__', args=tuple(lib.snap(it, a) for a in args), kwargs={},
-                       result=r))
+                       result=r, objs=tuple(args)))
+        if mutates_row is not None and isinstance(args[mutates_row], Row):
+            fd = z3.Function('%s.dom/%s' % (name, '_'.join(str(t.sort()) for t in ts)), *[t.sort() for t in ts], DomS)
+            fv = z3.Function('%s.val/%s' % (name, '_'.join(str(t.sort()) for t in ts)), *[t.sort() for t in ts], ValS)
+            row = args[mutates_row]
+            row.dom, row.val = fd(*ts), fv(*ts)
         if result_sort.eq(Cell):
             return it.uncell(r)
         return wrap(r)
-    return UFunc(name, apply, pure)
+    u = UFunc(name, apply, pure)
+    u.params = params
+    return u
 
 
 # ------------------------------------------------------------------------------------------------
@@ -282,6 +292,12 @@ def value_matches(it, got, want):
         rs = [value_matches(it, x, y) for x, y in zip(got.args, want.args)]
         rs += [value_matches(it, got.kwargs[k], want.kwargs[k]) for k in got.kwargs]
         return conj(rs)
+    if isinstance(got, ExcV) and isinstance(want, ExcV):
+        if got is want:
+            return True
+        if got.cls != want.cls or got.term is None or want.term is None:
+            return False
+        return got.term == want.term
     if isinstance(got, tuple) and isinstance(want, tuple):
         if len(got) != len(want):
             return False
